@@ -445,8 +445,8 @@ inductive WStep (w : World) : Act → World → Prop
                    (Repo.step {} w.obs.repo w.obs.clock.now (.done id (World.outcomeErr o))).1 },
                  ret := s, pc := .idle }
   /-- `dispatchTask` / `Retry` fail before the work function is started, no repository write -/
-  | derr (a : SAct) (t : Task) (e : Err) (hpc : heldPc w.pc = some t) (hns : w.pc ≠ .s_nextSched t) :
-      WStep w (.sched a) { w with ret := .dispatchErr t e, pc := .idle }
+  | derr (a : SAct) (t : Task) (e : Err) (g : Bool) (hpc : heldPc w.pc = some t) (hns : w.pc ≠ .s_nextSched t) :
+      WStep w (.sched a) { w with ret := .dispatchErr t e, pc := .idle, getNextErr := g }
   | waitGet (t : Task) (hpc : w.pc = .d_wait t true) :
       WStep w (.sched (.waitWorker true)) { w with pc := .d_get t }
   | waitMark (t : Task) (hpc : w.pc = .d_wait t false) :
@@ -456,7 +456,8 @@ inductive WStep (w : World) : Act → World → Prop
       (hnb : f ≠ .before) (hcd : w.ctxDone = false)
       (he : f = .after ∨ (w.obs.step (.dispatch t.id) hf).2 = .err e) :
       WStep w (.sched (.markDispatched f hf))
-        { w with obs := (w.obs.step (.dispatch t.id) hf).1, ret := .dispatchErr t e, pc := .idle }
+        { w with obs := (w.obs.step (.dispatch t.id) hf).1, ret := .dispatchErr t e, pc := .idle,
+                 getNextErr := true }
   | markOk (f : Fault) (hf : Option Err) (t : Task) (r : Bool) (hpc : w.pc = .d_mark t r)
       (hnb : f ≠ .before) (hcd : w.ctxDone = false)
       (hok : (w.obs.step (.dispatch t.id) hf).2.isErr = false) :
@@ -590,7 +591,7 @@ theorem sched_spec (w : World) (a : SAct) : WStep w (.sched a) (w.sched a).1 := 
   next t retry acq hpc =>
     simp only
     split
-    · exact .derr _ t _ (by rw [hpc]; rfl) (by rw [hpc]; simp)
+    · exact .derr _ t _ true (by rw [hpc]; rfl) (by rw [hpc]; simp)
     · rename_i hacq
       have : acq = true := by simpa using hacq
       subst this
@@ -602,11 +603,11 @@ theorem sched_spec (w : World) (a : SAct) : WStep w (.sched a) (w.sched a).1 := 
   next t retry f hf hpc =>
     simp only
     split
-    · exact .derr _ t _ (by rw [hpc]; rfl) (by rw [hpc]; simp)
+    · exact .derr _ t _ true (by rw [hpc]; rfl) (by rw [hpc]; simp)
     · rename_i hnb
       have hnb : f ≠ .before := by simpa using hnb
       split
-      · exact .derr _ t _ (by rw [hpc]; rfl) (by rw [hpc]; simp)
+      · exact .derr _ t _ true (by rw [hpc]; rfl) (by rw [hpc]; simp)
       · rename_i hcd
         have hcd : w.ctxDone = false := by simpa using hcd
         by_cases hfa : f = .after
@@ -623,12 +624,12 @@ theorem sched_spec (w : World) (a : SAct) : WStep w (.sched a) (w.sched a).1 := 
   next t f hpc =>
     simp only
     split
-    · exact .derr _ t _ (by rw [hpc]; rfl) (by rw [hpc]; simp)
+    · exact .derr _ t _ true (by rw [hpc]; rfl) (by rw [hpc]; simp)
     · rename_i hf
       split
-      · exact .derr _ t _ (by rw [hpc]; rfl) (by rw [hpc]; simp)
+      · exact .derr _ t _ true (by rw [hpc]; rfl) (by rw [hpc]; simp)
       · split
-        · exact .derr _ t _ (by rw [hpc]; rfl) (by rw [hpc]; simp)
+        · exact .derr _ t _ true (by rw [hpc]; rfl) (by rw [hpc]; simp)
         · rename_i cur hl
           have : f = .none := by simpa using hf
           subst this
@@ -659,12 +660,12 @@ theorem sched_spec (w : World) (a : SAct) : WStep w (.sched a) (w.sched a).1 := 
   next t f hpc =>
     simp only
     split
-    · exact .derr _ t _ (by rw [hpc]; rfl) (by rw [hpc]; simp)
+    · exact .derr _ t _ w.getNextErr (by rw [hpc]; rfl) (by rw [hpc]; simp)
     · rename_i hf
       have : f = .none := by simpa using hf
       subst this
       split
-      · exact .derr _ t _ (by rw [hpc]; rfl) (by rw [hpc]; simp)
+      · exact .derr _ t _ w.getNextErr (by rw [hpc]; rfl) (by rw [hpc]; simp)
       · split
         · rename_i hl; exact .refetchNone t hpc hl
         · rename_i cur hl; exact .refetch t cur hpc hl
@@ -875,8 +876,8 @@ theorem Inv.fin {w : World} (hI : Inv w) (s : SS) (lt : Option Task) (g cd : Boo
   counts := hI.counts
 
 /-- `dispatchTask` / `Retry` fail with the task they carry -/
-theorem Inv.derr {w : World} (hI : Inv w) (t : Task) (e : Err) (hpc : heldPc w.pc = some t) :
-    Inv { w with ret := .dispatchErr t e, pc := .idle } where
+theorem Inv.derr {w : World} (hI : Inv w) (t : Task) (e : Err) (g : Bool) (hpc : heldPc w.pc = some t) :
+    Inv { w with ret := .dispatchErr t e, pc := .idle, getNextErr := g } where
   fix := hI.fix
   wf := hI.wf
   pcHeld := fun t h => by simp [heldPc] at h
@@ -1013,7 +1014,7 @@ theorem Inv_wstep {w w' : World} {a : Act} (hs : WStep w a w') (hI : Inv w) (hu 
       (C12_inv_step hI.wf trivial) (FrameP.of_step hI.wf _ _ rfl)
       (.inr (fun t => by rcases hpc with hpc | hpc <;> (rw [hpc]; simp)))
     exact h1.fin s w.lastTask w.getNextErr w.ctxDone (.inl rfl) hs
-  | derr a t e hpc hns => exact hI.derr t e hpc
+  | derr a t e g hpc hns => exact hI.derr t e g hpc
   | waitGet t hpc =>
     have hn := hI.last_none (by rw [hpc]; rfl)
     refine ⟨hI.fix, hI.wf, ?_, ?_, ?_, ?_, hI.logged, hI.nodup, hI.counts⟩
@@ -1041,7 +1042,7 @@ theorem Inv_wstep {w w' : World} {a : Act} (hs : WStep w a w') (hI : Inv w) (hu 
     · intro t' ht; simp at ht
   | markErr f hf t r e hpc hnb hcd he =>
     have h1 := hI.user (.dispatch t.id) hf (.dispatch t.id) rfl trivial rfl rfl
-    exact h1.derr t e (by show heldPc w.pc = some t; rw [hpc]; rfl)
+    exact h1.derr t e true (by show heldPc w.pc = some t; rw [hpc]; rfl)
   | markOk f hf t r hpc hnb hcd hok =>
     have h1 := hI.user (.dispatch t.id) hf (.dispatch t.id) rfl trivial rfl rfl
     have hn := hI.last_none (by rw [hpc]; rfl)
@@ -1425,9 +1426,9 @@ theorem TInv.fin {w : World} (hT : TInv w) (s : SS) (lt : Option Task) (g cd : B
     rw [h2] at hs; cases hs
   early := hT.early
 
-theorem TInv.derr {w : World} (hT : TInv w) (hI : Inv w) (t : Task) (e : Err)
+theorem TInv.derr {w : World} (hT : TInv w) (hI : Inv w) (t : Task) (e : Err) (g : Bool)
     (hpc : heldPc w.pc = some t) (hns : w.pc ≠ .s_nextSched t) :
-    TInv { w with ret := .dispatchErr t e, pc := .idle } where
+    TInv { w with ret := .dispatchErr t e, pc := .idle, getNextErr := g } where
   pcDue := fun t h => by simp [heldPc] at h
   pcCopy := fun t h => by simp at h
   lastDue := by
@@ -1519,7 +1520,7 @@ theorem TInv_wstep {w w' : World} {a : Act} (hs : WStep w a w') (hI : Inv w) (hT
     · have : heldPc w.pc = none := by rcases hpc with hpc | hpc <;> (rw [hpc]; rfl)
       unfold World.held at ht
       rcases hpc with hpc | hpc <;> (rw [hpc] at ht; simp only at ht; exact (hI.lastHeld t ht).1.1)
-  | derr a t e hpc hns => exact hT.derr hI t e hpc hns
+  | derr a t e g hpc hns => exact hT.derr hI t e g hpc hns
   | waitGet t hpc =>
     have hn := hI.last_none (by rw [hpc]; rfl)
     refine ⟨?_, ?_, ?_, ?_, hT.early⟩
@@ -1548,7 +1549,7 @@ theorem TInv_wstep {w w' : World} {a : Act} (hs : WStep w a w') (hI : Inv w) (hT
         rw [hr]
         rw [hh] at ht'; cases ht'
         exact frameT_of_step hI.wf _ _ rfl t.id (hI.pcHeld t (by rw [hpc]; rfl)).1 (fun p h => by cases h))
-    exact h1.derr (hI.user (.dispatch t.id) hf (.dispatch t.id) rfl trivial rfl rfl) t e
+    exact h1.derr (hI.user (.dispatch t.id) hf (.dispatch t.id) rfl trivial rfl rfl) t e true
       (by show heldPc w.pc = some t; rw [hpc]; rfl) (by show w.pc ≠ _; rw [hpc]; simp)
   | markOk f hf t r hpc hnb hcd hok =>
     obtain ⟨hr, _, hnw⟩ := obs_step w.obs (.dispatch t.id) hf (rop := .dispatch t.id) rfl
@@ -2026,8 +2027,8 @@ theorem QInv_wstep {w w' : World} {a : Act} (hs : WStep w a w') (hI : Inv w) (hQ
         · cases h; exact hmem
     · intro id' o' h
       rcases h with h | h <;> cases h
-  | derr a t e hpc hns =>
-    exact plain _ _ w.lastTask w.getNextErr w.ctxDone
+  | derr a t e g hpc hns =>
+    exact plain _ _ w.lastTask g w.ctxDone
       (fun id o => by constructor <;> (intro h; rw [h] at hpc; cases hpc))
       (fun h => by rw [h] at hpc; cases hpc) (fun id o => by simp) (.inr (fun _ _ _ h => by cases h))
   | waitGet t hpc =>
@@ -2039,7 +2040,7 @@ theorem QInv_wstep {w w' : World} {a : Act} (hs : WStep w a w') (hI : Inv w) (hQ
   | markErr f hf t r e hpc hnb hcd he =>
     have h1 := viaOp (w.obs.step (.dispatch t.id) hf).1 (.dispatch t.id) rfl rfl
       (obs_step w.obs _ hf rfl).1
-    refine h1.ctl .idle (.dispatchErr t e) w.lastTask w.getNextErr w.ctxDone ?_ ?_ ?_
+    refine h1.ctl .idle (.dispatchErr t e) w.lastTask true w.ctxDone ?_ ?_ ?_
     · intro id o _ hp
       rcases hp.pc with h | h | h <;> (change w.pc = _ at h; rw [hpc] at h; cases h)
     · intro id o h
